@@ -2,6 +2,8 @@ import PyYetiVerif.Model.Op4
 import PyYetiVerif.Model.Op4Ascii
 import PyYetiVerif.Model.Op4Variants
 import PyYetiVerif.Model.PyFloat
+import PyYetiVerif.Model.Op4AsciiBits
+import PyYetiVerif.Model.Op4Input
 /-! Line protocol for C04 (all numbers decimal, byte strings hex).
 
   cs i0 i1 …                      → `s:l s:l …`                       (`_sparse_col_stats`)
@@ -27,6 +29,19 @@ import PyYetiVerif.Model.PyFloat
   avals <cplx> <numlen> <L> <hex> → `_put_ascii_values_sparse[_c]`: bit patterns read from the block | `ValueError`
   ablk <dformat> <L> <perline> <numlen> <hex>
                                   → `_get_ascii_block` on the text: `<hex of block> <lines consumed>`
+
+  wr <b|a> <l|b> <digits> <opt a|d|b|n> names mats forms
+                                  → `op4.write` on its arguments (Model/Op4Input.lean `prepare`, then
+                                    `writeAllWords` / `writeOneAscii`): hex of the file | `ValueError` | `struct_error`
+     names = D <n> { <namehex|-> <M | N | P form> matIn }   (mapping: matrix, (matrix, None), (matrix, form))
+           | L <n> <namehex|->… | O <namehex|->
+     mats  = L <n> matIn… | O matIn          forms = N | O <form> | L <n> <form|->…
+     matIn = nd <ndim> dim… <cplx> <nelems> raw…   (row-major logical elements; two raws per complex element;
+                 raw = d<bits64> | s<bits32> | i<integer> | b<0|1>)
+           | sp <rows> <ncols> <cplx> <ntrip> { <row> <col> <re> [<im>] }   (stored triplets in storage order)
+  tod <cplx> <rows> <cols> <n> { <row> <col> <re> [<im>] }
+                                  → `coo_matrix((V, (I, J)), shape).toarray()` (`cooToDense` with IEEE addition):
+                                    the elements column-major
 
   mat = <opt a|d|b|n><kind 0 ndarray|1 scipy-sparse> <index> <namehex|-> <form|-> <cplx 0|1> <rows> <ncols>
         then rows*ncols elements column-major, one (real) or two (complex) bit patterns each.
@@ -91,27 +106,6 @@ def iscloseC (a b : Entry) : Bool :=
 def closeE (cplx : Bool) (a b : Entry) : Bool :=
   if cplx then iscloseC a b else isclose (Float.ofBits a.1.toUInt64) (Float.ofBits b.1.toUInt64)
 
-def getE (cols : List (List Entry)) (i j : Nat) : Entry := ((cols.getD j []).getD i (0, 0))
-
-def autoForm (sparseIn : Bool) (cplx : Bool) (rows : Nat) (cols : List (List Entry)) : Nat :=
-  if rows ≠ cols.length then 2 else
-  let idx := (List.range rows).flatMap fun i => (List.range rows).map fun j => (i, j)
-  let ok :=
-    if sparseIn then
-      -- strictly lower entries must mirror strictly upper ones (pattern), values allclose(lower, upper)
-      idx.all fun (i, j) =>
-        if i > j then
-          let lo := getE cols i j
-          let up := getE cols j i
-          let zl := lo.isZero cplx
-          let zu := up.isZero cplx
-          if zl && zu then true else if zl != zu then false else closeE cplx lo up
-        else true
-    else
-      -- allclose(m.T, m): a = m[j,i], b = m[i,j]
-      idx.all fun (i, j) => closeE cplx (getE cols j i) (getE cols i j)
-  if ok then 6 else 1
-
 def layoutOpt (c : Char) : Option (Option Layout) :=
   match c with
   | 'a' => some none
@@ -147,7 +141,7 @@ def matP : P (Layout × Mat) := do
       let im ← if cplx then nat else pure 0
       pure ((re, im) : Entry)) (rows * ncols)
   let cols := chunkRows rows ncols es
-  let form ← if formT == "-" then pure (autoForm sparseIn cplx rows cols) else
+  let form ← if formT == "-" then pure (autoForm (closeE cplx) sparseIn cplx rows cols) else
     match formT.toNat? with
     | some f => pure f
     | none => failure
@@ -185,16 +179,7 @@ def showDir : Nat → List (List Nat × Int × Int × Int × Int) → List Strin
 /-! ASCII reader: a decimal becomes the nearest double (`float()`), a complex element is built as
 `real + 1j * imag` in Python complex arithmetic (`cooEntry`; NaN real part when the imaginary part
 overflowed to ±inf), in the dense and in the sparse read -/
-def decBits (x : PyYetiVerif.Op4A.Dec10) : Nat :=
-  if x.exp.natAbs > 6000 then (if x.exp < 0 ∨ x.man = 0 then PyYetiVerif.PyFloat.toBits x.neg 0 1 else PyYetiVerif.PyFloat.infBits x.neg)
-  else if x.exp ≥ 0 then PyYetiVerif.PyFloat.toBits x.neg (x.man * 10 ^ x.exp.toNat) 1
-  else PyYetiVerif.PyFloat.toBits x.neg x.man (10 ^ (-x.exp).toNat)
-
-def entryBits (cplx : Bool) (x : PyYetiVerif.Op4A.AEntry) : Entry :=
-  let im := decBits x.2
-  -- an imaginary part that overflows to ±inf: `1j * inf = (0*inf - 0) + inf j`, the real part is the default NaN
-  if cplx ∧ im % 9223372036854775808 = 9218868437227405312 then (0xFFF8000000000000, im) else
-  cooEntry cplx (decBits x.1, if cplx then im else 0)
+open PyYetiVerif.Op4A (decBits entryBits)
 
 def showDecA (mode : Char) (count : Nat) (d : PyYetiVerif.Op4A.ADec) : String :=
   let cplx := decide (3 ≤ d.mtype)
@@ -261,6 +246,85 @@ def amatP : P PyYetiVerif.Op4V.AMat := do
 
 def endianOf (s : String) : Option Endian :=
   if s == "l" then some .little else if s == "b" then some .big else none
+
+def fadd (a b : Nat) : Nat := (Float.ofBits a.toUInt64 + Float.ofBits b.toUInt64).toBits.toNat
+
+def rawP : P Raw := do
+  let t ← tok
+  match t.toList with
+  | 'd' :: r => match (String.ofList r).toNat? with
+    | some n => pure (.f64 n)
+    | none => failure
+  | 's' :: r => match (String.ofList r).toNat? with
+    | some n => pure (.f32 n)
+    | none => failure
+  | 'i' :: r => match (String.ofList r).toInt? with
+    | some n => pure (.int n)
+    | none => failure
+  | ['b', c] => pure (.bool (c == '1'))
+  | _ => failure
+
+def nameP : P (List Nat) := do
+  let nm ← tok
+  if nm == "-" then pure [] else match unhex nm.toList with
+    | some b => pure b
+    | none => failure
+
+def matInP : P MatIn := do
+  match (← tok) with
+  | "nd" =>
+    let shape ← countedP nat
+    let cplx ← flagP
+    let es ← countedP (do
+      let re ← rawP
+      let im ← if cplx then rawP else pure (.f64 0)
+      pure (re, im))
+    pure (.nd { shape, cplx, elems := es })
+  | "sp" =>
+    let rows ← nat
+    let ncols ← nat
+    let cplx ← flagP
+    let trip ← countedP (do
+      let r ← nat
+      let c ← nat
+      let re ← nat
+      let im ← if cplx then nat else pure 0
+      pure ((r, c, (re, im)) : Trip))
+    pure (.sp { rows, ncols, cplx, trip })
+  | _ => failure
+
+def optFormP : P (Option Nat) := do
+  let t ← tok
+  if t == "-" then pure none else match t.toNat? with
+    | some f => pure (some f)
+    | none => failure
+
+def namesArgP : P NamesArg := do
+  match (← tok) with
+  | "D" => do
+    let items ← countedP (do
+      let n ← nameP
+      let k ← tok
+      let form ← if k == "P" then (do pure (some (some (← nat)))) else if k == "N" then pure (some none) else pure none
+      let m ← matInP
+      pure (n, match form with | some f => DictVal.pair m f | none => DictVal.mat m))
+    pure (.dict items)
+  | "L" => do pure (.list (← countedP nameP))
+  | "O" => do pure (.one (← nameP))
+  | _ => failure
+
+def matsArgP : P MatsArg := do
+  match (← tok) with
+  | "L" => do pure (.list (← countedP matInP))
+  | "O" => do pure (.one (← matInP))
+  | _ => failure
+
+def formsArgP : P FormsArg := do
+  match (← tok) with
+  | "N" => pure .none
+  | "O" => do pure (.one (← nat))
+  | "L" => do pure (.list (← countedP optFormP))
+  | _ => failure
 
 def run (p : P String) (ws : List String) : String :=
   match p.run ws with
@@ -387,6 +451,41 @@ def answer (line : String) : String :=
         let b := PyYetiVerif.Op4A.getBlock g L ls
         s!"{toHex (b.1.map Char.toNat)}- {ls.length - b.2.length}"
       | _, _, _, _, _ => "bad-op"
+  | "wr" :: kind :: e :: ws => run (do
+        let e ← match endianOf e with
+          | some e => pure e
+          | none => failure
+        let d ← nat
+        let opt ← match (← tok).toList with
+          | [c] => match layoutOpt c with
+            | some o => pure o
+            | none => failure
+          | _ => failure
+        let names ← namesArgP
+        let mats ← matsArgP
+        let forms ← formsArgP
+        match prepare iscloseC fadd opt names mats forms with
+        | none => pure "ValueError"
+        | some items =>
+          if kind == "b" then
+            match writeAllWords fadd e items with
+            | .ok w => pure (toHex (bytesOfWords e w))
+            | .error .valueError => pure "ValueError"
+            | .error .structError => pure "struct_error"
+          else
+            pure (toHex ((items.flatMap fun p => writeOneAscii fadd d p.1 p.2).map Char.toNat))) ws
+  | "tod" :: ws => run (do
+        let cplx ← flagP
+        let rows ← nat
+        let cols ← nat
+        let ts ← countedP (do
+          let r ← nat
+          let c ← nat
+          let re ← nat
+          let im ← if cplx then nat else pure 0
+          pure ((r, c, (re, im)) : Nat × Nat × Entry))
+        let X := cooToDense (addE fadd) rows cols ts
+        pure (" ".intercalate (X.flatMap fun col => col.map (showEntry cplx)))) ws
   | ["fmt", d, b] => match d.toNat?, b.toNat? with
       | some d, some b => toHex ((fmtE d b).map Char.toNat)
       | _, _ => "bad-op"
